@@ -10,6 +10,7 @@ import (
 	"verif/engines/cli"
 	"verif/engines/events"
 	"verif/engines/history"
+	"verif/engines/hostile"
 	"verif/engines/stream"
 	"verif/simkit"
 )
@@ -26,6 +27,7 @@ func plainEngines() map[string]simkit.Engine {
 	add("history", history.Run)
 	add("sched-cli", cli.Sched)
 	add("cli", cli.Run)
+	add("hostile", hostile.Run)
 	return m
 }
 
@@ -123,6 +125,13 @@ func checkCmd(args []string) int {
 		c.Components = map[string][]string{"real": append([]string{"xsel/xsel.go (yield-instrumented copy, otherwise unmodified), flag, mime, filepath.WalkDir, os"}, realLib...), "simulated": {"argv, stdin, directory tree and file faults (scratch directory on the real file system)", "goroutine choice (scheduler P, trivial schedule)"}}
 		c.RequiredProbes = []string{"string-record", "multi-line-string-record", "m-record:element", "m-record:text", "file-fault:unreadable", "file-fault:unparsable or untyped", "global-diagnostic-case", "files-processed"}
 		c.Phases = []simkit.Phase{{Label: "cli", Bin: bin, Engine: "cli", Runs: pick(4000, 300000), MaxSeconds: secs(60, 1500), DetSample: int(pick(8, 64)), Samples: 3}}
+	case "C15":
+		c.Level = "exploration"
+		c.Rule = "one evaluation = one hostile run of one of three kinds: (streams) a generated XML/JSON/HTML text mangled by 1-4 faults (code-point/byte corruption, garbage bytes incl. invalid UTF-8, unknown encodings, entity bombs, truncation, 200-3200-deep nesting) read by its own and a foreign reader through a failing reader (first-read failure, data+error, failure just before EOF, zero-length reads), then queried; (queries) 3-12 well-typed generated expressions with boundary-class numeric arguments (+-0, +-Inf, NaN, +-0.5, 2^53+1, 2^63, 1e30, fractions), a quarter of them token-mutated, under failing / panicking / nil-returning callbacks, nil variables and odd namespace bindings; (unmarshal) 4-13 Unmarshal calls with 40 kinds of unfillable target and results of the wrong shape; distinct = distinct tape; non-trivial = at least one fault fired"
+		c.Assumptions = []string{"arbitrary byte strings as *expression* are only sampled (generator + token mutation): that clause is a pure-input quantifier and the simulator adds nothing to it", "'xpath query panic' is only judged for un-mutated generated expressions in runs where no callback panicked or returned (nil,nil) and no variable was nil", "a hang is detected by the batch watchdog (180 s without progress) and attributed to the run in progress"}
+		c.Components = map[string][]string{"real": realLib, "simulated": {"io.Reader (hostile delivery and failures)", "user callbacks (errors, panics of several value types, nil results)", "binding maps", "Unmarshal targets"}}
+		c.RequiredProbes = []string{"part:streams", "part:queries", "part:unmarshal", "unfillable-target", "hostile-callback:panic", "hostile-callback:fail", "hostile-callback:nilnil", "mutated-expression", "variable-bound-to-nil", "well-typed-query-evaluated", "unmarshal-nil-result"}
+		c.Phases = []simkit.Phase{{Label: "hostile", Bin: bin, Engine: "hostile", Runs: pick(20000, 1500000), MaxSeconds: secs(60, 1500), DetSample: int(pick(24, 256)), Samples: 3}}
 	case "C10":
 		c.Level = "exploration"
 		c.Rule = "one evaluation = one scripted event history (contract-conforming: element start, then namespaces, then attributes, then children, end; surplus end events only where depth is 0) pulled by store.CreateInMemory through the Parser seam and compared with a stack-machine reference model, plus the stack-ceiling child processes (one evaluation each); distinct = distinct event history; non-trivial = history has >= 4 events"
